@@ -75,6 +75,9 @@ func (m *machine) show(v, f string) string {
 	if m.p.typeOf(v) == "string" {
 		return m.reg[key(v, f)].S
 	}
+	if _, set := m.reg[key(v, f)]; !set && m.p.typeOf(v) == "any" {
+		return "" // a nil interface value shows nothing
+	}
 	return fmt.Sprintf("%d", m.reg[key(v, f)].N)
 }
 
